@@ -45,31 +45,37 @@ Theorem C22_deep_roundtrip : forall (E D : bytes -> res bytes),
 Proof. exact deep_roundtrip. Qed.
 Print Assumptions C22_deep_roundtrip.
 
-(* Writer dispatch (writeObjectGeneric: strings, dicts, arrays, streams incl. the xref-stream and
-   Crypt-filter exemptions, object-stream members) followed by the reader (resolveObject,
-   decryptStreamContent) gives back the object.  _partial: it excludes exactly
-   (a) ILazy — undecoded object-stream members are written without encryption (see C22_lazy_refuted), and
-   (b) /Type /Metadata streams when EncryptMetadata is false (see C22_metadata_emd_false_refuted);
-       setupEncryption (api.Encrypt) always has EncryptMetadata = true.
+(* Writer (writeIndirectObject + writeObjectGeneric with a key set: strings, dicts, arrays, streams incl.
+   the xref-stream and Crypt-filter exemptions, object-stream members, and members of the input's object
+   streams that were never decoded, which are decoded first) followed by the reader (resolveObject,
+   decryptStreamContent) gives back the object (decoded io = io except that a lazy member comes back decoded).
+   _partial: it excludes exactly /Type /Metadata streams when EncryptMetadata is false
+   (see C22_metadata_emd_false_refuted; known finding emd-false-metadata-reencrypted);
+   setupEncryption (api.Encrypt) always has EncryptMetadata = true.
    Full statement: the same without the roundtrip_ok hypothesis. *)
 Theorem C22_object_roundtrip_partial : forall c,
   (forall k b, len16 b -> cp_adec c k (cp_aenc c k b) = b) ->
   (forall k b, len16 b -> len16 (cp_aenc c k b)) ->
   forall strE stmE, str_cipher_of c strE -> stm_cipher_of c stmE ->
   forall emd to_os io e, roundtrip_ok emd io ->
-    write_iobj strE stmE to_os io = Ok e ->
-    read_emitted (decryptBytes c) (decryptStream c) emd (filters_of io) e = Ok io.
+    write_iobj true strE stmE to_os io = Ok e ->
+    read_emitted (decryptBytes c) (decryptStream c) emd (filters_of io) e = Ok (decoded io).
 Proof. exact object_roundtrip. Qed.
 Print Assumptions C22_object_roundtrip_partial.
 
-Theorem C22_lazy_refuted : exists o o',
-  write_iobj (encryptBytes wit_c []) (encryptStream wit_c []) false (ILazy o) = Ok (EmTop o) /\
-  read_emitted (decryptBytes wit_c) (decryptStream wit_c) true [] (EmTop o) = Ok (IObj o') /\ o' <> o.
-Proof. exact lazy_refuted. Qed.
-Print Assumptions C22_lazy_refuted.
+(* an undecoded object-stream member round-trips like any other object (no side condition) *)
+Theorem C22_lazy_roundtrip : forall c,
+  (forall k b, len16 b -> cp_adec c k (cp_aenc c k b) = b) ->
+  (forall k b, len16 b -> len16 (cp_aenc c k b)) ->
+  forall strE stmE, str_cipher_of c strE -> stm_cipher_of c stmE ->
+  forall emd to_os o e,
+    write_iobj true strE stmE to_os (ILazy o) = Ok e ->
+    read_emitted (decryptBytes c) (decryptStream c) emd [] e = Ok (IObj o).
+Proof. exact lazy_roundtrip. Qed.
+Print Assumptions C22_lazy_roundtrip.
 
 Theorem C22_metadata_emd_false_refuted : exists d raw e raw',
-  write_iobj (encryptBytes wit_c []) (encryptStream wit_c []) false (IStream d [] raw) = Ok e /\
+  write_iobj true (encryptBytes wit_c []) (encryptStream wit_c []) false (IStream d [] raw) = Ok e /\
   type_is nMetadata d = true /\
   read_emitted (decryptBytes wit_c) (decryptStream wit_c) false [] e = Ok (IStream d [] raw') /\ raw' <> raw.
 Proof. exact metadata_emd_false_refuted. Qed.
